@@ -465,15 +465,11 @@ func (e *env) runOpenSSH(p planItem, i int64, r *rand.Rand) {
 	port := srv.port()
 	var stall *stallInfo
 	res := runSSH(c.args(e.mt, port), c.Payload, e.watchdog(sshWatchdog), func(pid int) { s := probeStall(pid, port); stall = &s })
-	finished := true
-	select {
-	case <-srv.done:
-	case <-time.After(serverWatchdog):
-		finished = false
-	}
+	// never wait unboundedly for the Go side: it may be the party that is stuck
+	finished := !res.TimedOut && srv.waitDone(serverWatchdog)
 	srv.stop()
 	if !finished {
-		<-srv.done
+		srv.waitDone(10 * time.Second) // a server goroutine that still hangs is left behind
 	}
 	rep := srv.report()
 	l := parseSSHLog(res.Log)
@@ -670,7 +666,7 @@ func (e *env) runControl(which int) {
 	}
 	res := runSSH(c.args(e.mt, srv.port()), c.Payload, sshWatchdog, nil)
 	srv.stop()
-	<-srv.done
+	srv.waitDone(10 * time.Second)
 	l := parseSSHLog(res.Log)
 	refused := res.Started && !res.TimedOut && res.Exit == 255 && !l.Authenticated && len(res.Stdout) == 0 &&
 		((which == 0 && l.HostKeyVerifyFailed) || (which == 1 && l.PermissionDenied))
